@@ -101,7 +101,7 @@ class Check:
         with open(os.path.join(VERIF, "evidence", self.prop + ".json"), "w") as f:
             json.dump(ev, f, indent=1, default=str)
         for fk, (n, ex) in sorted(self.known.items()):
-            print("KNOWN-FINDING: property=%s %s (%d cases, e.g. %s)" % (self.prop, fk, n, ex))
+            print("KNOWN-FINDING: property=%s %s (%d cases, e.g. %s)" % (self.prop, fk, n, " ".join(str(ex).split())[:300]))
         for fk in sorted(self.findings):
             if fk not in self.known:
                 print("STALE-FINDING: property=%s %s did not reproduce in this tier" % (self.prop, fk))
@@ -126,7 +126,7 @@ class Check:
                     json.dump({"property": self.prop, "key": key, "description": desc, "case": replay}, f, indent=1,
                               default=str)
                 if i < 25:
-                    print("VIOLATION property=%s replay=%s  # %s: %s" % (self.prop, path, key, desc[:300]))
+                    print("VIOLATION property=%s replay=%s  # %s: %s" % (self.prop, path, key, " ".join(desc.split())[:300]))
             print("%s: %d violation(s) in %d classes" % (self.prop, len(self.violations), len(seen)))
             return 1
         return 0
